@@ -219,12 +219,20 @@ def run_job(job, tier):
         return {"job": job, "status": "harness_error", "reason": "encoder refused a model the ONNX checker accepts: " + "; ".join(probs[:3])}
     if schema_only:
         return {"job": job, "status": "schema_ok", "opset": o, "schema_ok": True}
+    opts = options(tier, selfcheck=(o <= ORT_MAX))
+    if o > ORT_MAX:
+        # ONNX Runtime cannot load this opset: a solver candidate cannot be replayed, so it is never
+        # reported (the structural/schema part above still is); proofs (unsat) stand
+        opts.replay = False
     try:
-        r = pipeline.validate(prog, cj, model, shapes, options(tier, selfcheck=(o <= ORT_MAX)))
+        r = pipeline.validate(prog, cj, model, shapes, opts)
     except (pipeline.NotEncodable, pipeline.DomainError) as e:
         return {"job": job, "status": "schema_ok_not_encodable", "reason": str(e)[:150], "opset": o}
     except Exception as e:
         return {"job": job, "status": "harness_error", "reason": f"{type(e).__name__}: {str(e)[:150]}"}
+    if o > ORT_MAX and r.get("status") in ("candidate", "violation"):
+        r["status"] = "inconclusive"
+        r["reason"] = "solver candidate at an opset ONNX Runtime cannot load: not replayable"
     r["job"] = job
     r["opset"] = o
     r["schema_ok"] = True
